@@ -8,6 +8,7 @@ import NutsProofs.Lemmas.C08Tree
 import NutsProofs.Lemmas.C08Data
 import NutsProofs.Lemmas.C08Inv
 import NutsProofs.Lemmas.C08Repair
+import NutsProofs.Lemmas.C08Order
 
 namespace Nuts.C08.Props
 open Nuts.C08
@@ -133,6 +134,44 @@ example : let t := [((1 : BitVec 256), 0), (2, 5), (4, 3)].foldl (fun t rc => t.
     t.treeSize = 8 ∧ (t.zeroTo xorOps 1).1 = 1 ∧ (t.zeroTo xorOps 3).1 = 5 ∧ (t.zeroTo xorOps 4).1 = 7 ∧ t.rootData xorOps = 7 := by
   decide
 
+/-! ### contiguous trees: Load, Replace, the clock returned by ZeroTo -/
+
+/-- **Load establishes the invariant.** From the persisted leaves of the pages `0 … m-1` (`m ≥ 1`, even leaf size)
+    `Load` — into any tree object — builds a tree that satisfies the invariant and holds exactly those leaves, with
+    nothing marked dirty. (Contiguity of the persisted pages is not assumed at the state level: it is derived from
+    `clocks_downward_closed`.) -/
+theorem tree_inv_load {o : Ops R G} (L : Lawful o) {ls : Nat} (hls : 0 < ls) (heven : ls % 2 = 0) (b : Bool) (t0 : Tree G)
+    (m : Nat) (val : Nat → G) (hm : 1 ≤ m) :
+    TInv o (Tree.load o b t0 (pl ls 0 m val)) ∧ (Tree.load o b t0 (pl ls 0 m val)).root.leaves = pl ls 0 m val ∧
+    (Tree.load o b t0 (pl ls 0 m val)).leafSize = ls ∧ (Tree.load o b t0 (pl ls 0 m val)).dirty = [] := by
+  have h := Holds.load L hls heven b t0 m val hm
+  exact ⟨h.1.inv, h.1.leaves, h.1.ls_eq, h.2.1⟩
+
+/-- **Replace keeps the invariant** and sets exactly the addressed page: on a tree holding pages `0 … m-1`,
+    `Replace(clock, x)` with `clock` on an existing page makes that page's leaf `x`, recomputes every sum above it
+    (`rebuild`), marks that leaf dirty and touches no other leaf. -/
+theorem tree_inv_replace {o : Ops R G} (L : Lawful o) {ls : Nat} {t : Tree G} {m : Nat} {val : Nat → G}
+    (H : Holds o ls t m val) (clock : Nat) (x : G) (hP : clock / ls < m) :
+    TInv o (t.replace o clock x) ∧ (t.replace o clock x).root.leaves = pl ls 0 m (upd val (clock / ls) x) ∧
+    (t.replace o clock x).dirty = t.dirty ++ [keyOf ls (clock / ls)] := by
+  have h := H.replace L clock x hP
+  exact ⟨h.1.inv, h.1.leaves, h.2.1⟩
+
+/-- the clock `ZeroTo(c)` returns on a tree holding the pages `0 … m-1`: the last clock of `c`'s page, capped by the
+    last clock of the last page -/
+theorem zeroTo_clock_of_contiguous {o : Ops R G} {ls : Nat} {t : Tree G} {m : Nat} {val : Nat → G}
+    (H : Holds o ls t m val) (c : Nat) : (t.zeroTo o c).2 = ls * (min (c / ls) (m - 1) + 1) - 1 := by
+  obtain ⟨h, sh, _⟩ := H.shape
+  have := zeroTo_clock (o := o) H.ls_pos c h 0 m t.root (t.root.data o) sh (Nat.zero_le _)
+  simpa [Tree.zeroTo] using this
+
+/-- non-vacuity: a three-page tree loaded from its leaves, and a page of it replaced -/
+example : Holds xorOps 2 (Tree.load xorOps true (Tree.new xorOps 2) (pl 2 0 3 (fun p => BitVec.ofNat 256 (p + 1)))) 3
+    (fun p => BitVec.ofNat 256 (p + 1)) :=
+  (Holds.load xor_lawful (by decide) (by decide) true _ 3 _ (by decide)).1
+example : ((Tree.load xorOps true (Tree.new xorOps 2) (pl 2 0 3 (fun p => BitVec.ofNat 256 (p + 1)))).replace xorOps 3 9).root.leaves =
+    [(1, 1), (3, 9), (5, 3)] := by decide
+
 /-! ### the state layer -/
 
 /-- the model instantiated with what the source says today -/
@@ -161,10 +200,12 @@ theorem reachable_inv {s : State NB} (r : Reachable s) : SInv cfg s := by
   | signalCorrect _ ih => exact ⟨ih.g, ih.lc, ih.x, ih.i⟩
   | checkPage _ ih => exact (ih.checkPage cfg_good).1
 
-/-- what is observable of a state: XOR and IBLT for a requested clock, count, highest clock (memory and disk), head -/
+/-- what is observable of a state: XOR and IBLT for a requested clock, the clock-ordered listing of any window, count,
+    highest clock (memory and disk), head -/
 structure Observables (s : State NB) (S : List Tx) : Prop where
   xor : ∀ req, xorAt s req = (specUpTo xorOps cfg.pageSize (refClocks S) req, specClock cfg.pageSize S req)
   iblt : ∀ req, ibltAt s req = (specUpTo (ibltOps NB) cfg.pageSize (keyClocks S) req, specClock cfg.pageSize S req)
+  listing : ∀ a b, listing s a b = .ok (specListing S a b)
   count : s.disk.count = S.length
   lcMem : s.mem.lcHigh = maxClock S
   lcDisk : s.disk.lcHigh = maxClock S
@@ -172,7 +213,7 @@ structure Observables (s : State NB) (S : List Tx) : Prop where
 
 theorem observables_of_sinv {s : State NB} (h : SInv cfg s) : Observables s s.disk.txs := by
   have hM : ∀ t ∈ s.disk.txs, t.clock ≤ maxClock s.disk.txs := fun t ht => le_maxClock ht
-  refine ⟨fun req => ?_, fun req => ?_, h.g.count, by rw [h.lc, h.g.lc], h.g.lc, h.g.head⟩
+  refine ⟨fun req => ?_, fun req => ?_, fun a b => listing_eq_spec h.g a b, h.g.count, by rw [h.lc, h.g.lc], h.g.lc, h.g.head⟩
   · have := digest_at xor_lawful cfg_good.pos h.x
       (by intro e; have : s.disk.txs = [] := by simpa [refClocks] using e
           rw [this]; rfl)
@@ -188,9 +229,10 @@ theorem observables_of_sinv {s : State NB} (h : SInv cfg s) : Observables s s.di
     rw [h.lc, h.g.lc]
     exact this
 
-/-- **Refinement (digests, counters, head).** In every reachable state, for EVERY requested clock, `XOR(c)` and `IBLT(c)`
-    (digest and clock) are the plain folds over the set of stored transactions, the count is its size, the highest
-    clock (atomic copy and disk) is its maximum, and the head is a stored transaction with the highest clock. -/
+/-- **Refinement.** In every reachable state, for EVERY requested clock, `XOR(c)` and `IBLT(c)` (digest and clock) are
+    the plain folds over the set of stored transactions; `FindBetweenLC(a, b)` for EVERY window is the stored
+    transactions with clock in `[a, b)` ordered by (clock, ref bytes); the count is the set's size, the highest clock
+    (atomic copy and disk) is its maximum, and the head is a stored transaction with the highest clock. -/
 theorem state_refines_spec {s : State NB} (r : Reachable s) : Observables s s.disk.txs :=
   observables_of_sinv (reachable_inv r)
 
@@ -394,6 +436,19 @@ theorem repair_restores {s : State NB} (r : Reachable s) (hne : s.disk.txs ≠ [
   have ho := observables_of_sinv hs
   rw [htxn, htx1] at ho
   exact ⟨hs, by rw [htxn, htx1], ho⟩
+
+/-! ### the two repaired defects, as statements about the model of the code before the repair -/
+
+/-- the configuration before the repair of `tree.Load` (no reset on an empty shelf) -/
+def cfgBeforeLoadFix : Cfg := { pageSize := 512, loadEmptyResets := false }
+
+/-- With the old `Load`, a commit failure on the very first write left the transaction in the XOR tree: `XOR(0)` is the
+    rolled-back ref although nothing is stored (the witness replayed on the real code is
+    harness/corpus/C08/state-first-write-rolled-back.jsonl). -/
+theorem first_write_rollback_defect_before_fix :
+    let s := (add cfgBeforeLoadFix (State.init cfgBeforeLoadFix : State NB) exRoot { commitFails := true }).1
+    s.disk.txs = [] ∧ (xorAt s 0).1 = 7 ∧ (specUpTo xorOps 512 (refClocks s.disk.txs) 0) = 0 := by
+  decide
 
 /-! ### the `uint32` bound -/
 
